@@ -307,6 +307,12 @@ CURATED_V2 = (
     "flow main\n  match (A() or B()) and (C() or D())\n  await (UtteranceBotAction(script=\"a\") or GestureBotAction(gesture=\"g\")) and UtteranceBotAction(script=\"b\")\n",
     "flow a\n  match A()\n\nflow b\n  match B()\n\nflow main\n  when (a or b) and E()\n    when a and b\n      break\n    else\n      continue\n  or when UtteranceBotAction(script=\"x\")\n    return\n  else\n    abort\n",
     "flow main\n  break\n  continue\n  match Z()\n",
+    # `when` with an or-group + else inside a loop: on the second iteration the head left waiting
+    # at WaitForHeads by the first one is counted again (heads of one flow interfere: the else
+    # branch's EndScope runs while sibling heads are alive).  The compiled flow is closed; the
+    # binding has to accept the scope sets of such heads (see c12_dyn._scopes_stripped).
+    "flow g\n  match G()\n  abort\n\nflow k\n  match K()\n  abort\n\nflow main\n  while True\n"
+    "    when g or k\n      send Then()\n    else\n      send Else()\n    match Z()\n",
 )
 
 
